@@ -22,7 +22,7 @@ import (
 )
 
 type Op struct {
-	// Kind: arrive | reap | produce | produce-exec-fails | restart
+	// Kind: arrive | reap | produce | produce-exec-fails | produce-stop-during-take | restart
 	Kind string   `json:"kind"`
 	Txs  [][]byte `json:"txs,omitempty"`
 }
@@ -59,8 +59,10 @@ func gen(t *rapid.T) Scenario {
 		case k < 7:
 			sc.Ops = append(sc.Ops, Op{Kind: "reap"})
 		case k < 9:
-			if rapid.IntRange(0, 5).Draw(t, "execfail") == 0 {
+			if x := rapid.IntRange(0, 11).Draw(t, "execfail"); x <= 1 {
 				sc.Ops = append(sc.Ops, Op{Kind: "produce-exec-fails"}, Op{Kind: "restart"})
+			} else if x <= 3 {
+				sc.Ops = append(sc.Ops, Op{Kind: "produce-stop-during-take"}, Op{Kind: "restart"})
 			} else {
 				sc.Ops = append(sc.Ops, Op{Kind: "produce"})
 			}
@@ -77,6 +79,9 @@ type seqLog struct {
 	released *[][][]byte
 	refused  *int
 	coarse   bool
+	// onTake, when set, is called once right after the real sequencer has handed out a non-empty batch
+	// (before the answer reaches the node): a stop request that arrives during the call
+	onTake *func()
 }
 
 func (s seqLog) SubmitBatchTxs(ctx context.Context, req coresequencer.SubmitBatchTxsRequest) (*coresequencer.SubmitBatchTxsResponse, error) {
@@ -98,6 +103,11 @@ func (s seqLog) GetNextBatch(ctx context.Context, req coresequencer.GetNextBatch
 			cp[i] = append([]byte(nil), tx...)
 		}
 		*s.released = append(*s.released, cp)
+		if s.onTake != nil && *s.onTake != nil {
+			f := *s.onTake
+			*s.onTake = nil
+			f()
+		}
 	}
 	return r, err
 }
@@ -113,6 +123,7 @@ type pipeline struct {
 	refused  int
 	bound    int
 	coarse   bool
+	onTake   func()
 	// releasedInCrashedStep marks batches released by a step that then died
 	releasedInCrashedStep map[int]bool
 }
@@ -122,7 +133,7 @@ func (pl *pipeline) wire() error {
 	if err != nil {
 		return err
 	}
-	pl.p.SeqOverride = seqLog{inner: seq, released: &pl.released, refused: &pl.refused, coarse: pl.coarse}
+	pl.p.SeqOverride = seqLog{inner: seq, released: &pl.released, refused: &pl.refused, coarse: pl.coarse, onTake: &pl.onTake}
 	return nil
 }
 
@@ -183,6 +194,14 @@ func (pl *pipeline) do(o Op) (crashed bool, pan any) {
 			pl.reaper.SubmitTxs()
 		case "produce":
 			_ = pl.p.N.M.VerifPublishBlock(pl.p.Ctx)
+		case "produce-stop-during-take":
+			// the node is asked to stop while the sequencing layer is answering: the production step runs under a
+			// context that ends the moment the batch has been handed out (the caller follows this op with a restart)
+			ctx, cancel := context.WithCancel(pl.p.Ctx)
+			pl.onTake = cancel
+			_ = pl.p.N.M.VerifPublishBlock(ctx)
+			pl.onTake = nil
+			cancel()
 		case "produce-exec-fails":
 			// the execution layer fails this once (a transient error); block production gives up, which in a
 			// running node ends the aggregation loop: the node is shut down and started again (the caller
